@@ -384,6 +384,93 @@ theorem parseRdata_a_text (a b c d : Nat) (ha : a ≤ 255) (hb : b ≤ 255) (hcc
     expectEol_tail tg cmt _ hT crlf r,
     mkRdata_ok [UInt8.ofNat a, UInt8.ofNat b, UInt8.ofNat c, UInt8.ofNat d] (by simp)]
 
+theorem groupsText_facts (gs : List Nat) (hne : gs ≠ []) :
+    (∀ x ∈ groupsText gs, plainOctet x = true) ∧ Starts (groupsText gs) ∧ ¬ [92, 35] <+: groupsText gs := by
+  have hplain : ∀ g, ∀ x ∈ hexText g, plainOctet x = true := by
+    intro g x hx
+    obtain ⟨d, hd, rfl⟩ := hexText_digits g x hx
+    exact (hexDigit_facts d hd).2.1
+  have hhead : ∀ g, ∃ d t, d < 16 ∧ hexText g = hexDigitOctet d :: t := by
+    intro g
+    cases h : hexText g with
+    | nil => exact absurd h (hexText_ne_nil g)
+    | cons c t =>
+      obtain ⟨d, hd, rfl⟩ := hexText_digits g c (by rw [h]; simp)
+      exact ⟨d, t, hd, rfl⟩
+  have hstart : ∀ d, d < 16 → fieldStart (hexDigitOctet d) := by
+    intro d hd
+    have := (hexDigit_facts d hd).2.1
+    simp only [plainOctet, Bool.and_eq_true, Bool.not_eq_true'] at this
+    exact .inr this.1
+  refine ⟨?_, ?_, ?_⟩
+  · induction gs with
+    | nil => exact absurd rfl hne
+    | cons g gs ih =>
+      cases gs with
+      | nil => simpa [groupsText] using hplain g
+      | cons g2 gs' =>
+        intro x hx
+        simp only [groupsText, List.mem_append, List.mem_cons] at hx
+        rcases hx with h | rfl | h
+        · exact hplain g x h
+        · decide
+        · exact ih (by simp) x h
+  · cases gs with
+    | nil => exact absurd rfl hne
+    | cons g gs =>
+      obtain ⟨d, t, hd, ht⟩ := hhead g
+      cases gs with
+      | nil => exact ⟨_, t, by simp [groupsText, ht], hstart d hd⟩
+      | cons g2 gs' => exact ⟨_, t ++ 58 :: groupsText (g2 :: gs'), by simp [groupsText, ht], hstart d hd⟩
+  · cases gs with
+    | nil => exact absurd rfl hne
+    | cons g gs =>
+      obtain ⟨d, t, hd, ht⟩ := hhead g
+      have h92 := (hexDigit_facts d hd).2.2.2
+      rintro ⟨u, hu⟩
+      cases gs with
+      | nil => simp [groupsText, ht] at hu; exact h92 hu.1.symm
+      | cons g2 gs' => simp [groupsText, ht] at hu; exact h92 hu.1.symm
+
+/-- IN AAAA: eight groups of hexadecimal digits -/
+theorem parseRdata_aaaa_text (gs : List Nat) (hlen : gs.length = 8) (hgs : ∀ g ∈ gs, g < 65536)
+    (hG : ∀ i, i ≤ 0 → GapOK (G i) (S i) (S (i + 1))) (hT : TailOK tg cmt (S 1)) :
+    parseRdata ctx 1 28 ⟨gapText (G 0) ++ (groupsText gs ++ (tailText tg cmt crlf ++ r)), line, S 0⟩ =
+      .ok (gs.flatMap u16be', ⟨r, line + gapLines (G 0) + gapLines tg + 1, false⟩) := by
+  have hEnd := atFieldEnd_tail tg cmt _ hT crlf r
+  have harm : findArm 1 28 = some "parse_in_aaaa_rdata" := by decide
+  have hne : gs ≠ [] := by intro h; simp [h] at hlen
+  obtain ⟨hplain, hstarts, hnb⟩ := groupsText_facts gs hne
+  have hl : (groupsText gs).length ≤ 65536 := by
+    have hh : ∀ g ∈ gs, (hexText g).length ≤ 4 := fun g hg => hexText_length g 3 (by simpa using hgs g hg)
+    have : ∀ (l : List Nat), (∀ g ∈ l, (hexText g).length ≤ 4) → (groupsText l).length ≤ 5 * l.length := by
+      intro l
+      induction l with
+      | nil => intro _; simp [groupsText]
+      | cons g l ih =>
+        intro h
+        cases l with
+        | nil => have := h g (by simp); simp [groupsText]; omega
+        | cons g2 l' =>
+          have := h g (by simp)
+          have := ih (fun x hx => h x (by simp [hx]))
+          simp only [groupsText, List.length_append, List.length_cons] at this ⊢
+          omega
+    have := this gs hh
+    omega
+  have hmk : (gs.flatMap u16be').length ≤ 65535 := by
+    have : ∀ (l : List Nat), (l.flatMap u16be').length = 2 * l.length := by
+      intro l; induction l with
+      | nil => rfl
+      | cons g l ih => simp [u16be', ih]; omega
+    rw [this, hlen]; omega
+  rw [parseRdata_typed ctx 1 28 _ harm _ _ _ (hG 0 (by omega)) _ _ hstarts hnb hEnd line]
+  show inAaaaRdataBody _ = _
+  unfold inAaaaRdataBody
+  simp only [bind, P.bind,
+    readField_plain parseIpv6 .InvalidIpv6 _ _ _ hplain hl hEnd (parseIpv6_render gs hlen hgs),
+    expectEol_tail tg cmt _ hT crlf r, mkRdata_ok _ hmk]
+
 /-- HINFO: two character-strings -/
 theorem parseRdata_hinfo_text (cls : Nat) (s1 s2 : PString) (h1 : WFString s1) (h2 : WFString s2)
     (hnb : ¬ [92, 35] <+: stringText s1)
@@ -498,6 +585,7 @@ def WFRdata : PRdata → Prop
   | .srv p w port n => p ≤ 65535 ∧ w ≤ 65535 ∧ port ≤ 65535 ∧ WFName n
   | .txt s ss => (∀ x ∈ s :: ss, WFString x) ∧ notBh (stringText s) ∧ ((s :: ss).flatMap stringWire).length ≤ 65535
   | .hinfo c o => WFString c ∧ WFString o ∧ notBh (stringText c)
+  | .aaaa gs => gs.length = 8 ∧ ∀ g ∈ gs, g < 65536
 
 /-- **RDATA.**  The text of well-formed RDATA of the right kind for `(cls, ty)`, with any
     well-formed gaps before, inside and after it, is read back by `parse_rdata` as the RDATA it
@@ -602,5 +690,23 @@ theorem parseRdata_render (ctx : Ctx) (hctx : CtxWF ctx) (cls ty : Nat) (h41 : t
     subst hw
     have := parseRdata_hinfo_text ctx G S tg cmt crlf r line cls c o h1 h2 hnb hG hT
     simpa [rdataText, rdataLines, Nat.add_assoc] using this
+  | aaaa gs =>
+    obtain ⟨hlen, hgs⟩ := hwf
+    simp only [kindOK, Bool.and_eq_true, beq_iff_eq] at hk
+    obtain ⟨rfl, rfl⟩ := hk
+    simp only [rdataWire, Option.some.injEq] at hw
+    subst hw
+    have := parseRdata_aaaa_text ctx G S tg cmt crlf r line gs hlen hgs hG hT
+    have hw : ∀ l : List Nat, (∀ g ∈ l, g < 65536) → l.flatMap u16be' = l.flatMap u16Wire := by
+      intro l
+      induction l with
+      | nil => intro _; rfl
+      | cons g l ih =>
+        intro h
+        have hg := h g (by simp)
+        simp only [List.flatMap_cons, ih (fun x hx => h x (by simp [hx])), u16be', u16Wire]
+        rw [Nat.mod_eq_of_lt (by omega : g / 256 < 256)]
+    rw [hw gs hgs] at this
+    simpa [rdataText, rdataLines] using this
 
 end QV.ZF
